@@ -14,19 +14,60 @@ Lemma handle_g_as_written on s ch : handle_g gate_as_written on s ch = handle s 
 Proof. unfold handle_g, handle, handler_ops, gate_as_written. now rewrite andb_true_r. Qed.
 
 Lemma gstep_as_written g o :
-  g_q (gstep gate_as_written g o) = hstep (g_q g) (erase o).
+  g_q (gstep gate_as_written config_always g o) = hstep (g_q g) (erase o).
 Proof.
-  destruct o as [en | o]; cbn [gstep erase g_q].
-  - now rewrite handle_g_as_written.
+  destruct o as [en | o]; cbn [gstep erase g_q config_always].
+  - cbn [g_q]. now rewrite handle_g_as_written.
   - destruct o; cbn [g_q gate_as_written]; try reflexivity. now rewrite handle_g_as_written.
 Qed.
 
+(** The flag the requests read is the configured one: after every step of
+    the code as it is, from a state where they agree. *)
+Lemma gstep_flag_in_step g o : g_on g = g_conf g ->
+  g_on (gstep gate_as_written config_always g o) = g_conf (gstep gate_as_written config_always g o).
+Proof.
+  intros E. destruct o as [en | o]; cbn; [reflexivity|].
+  destruct o; cbn; auto. unfold publish. destruct (restarts _ _ && _); auto.
+Qed.
+
+Theorem flag_in_step_after_history hs : forall g, g_on g = g_conf g ->
+  g_on (grun gate_as_written config_always g hs) = g_conf (grun gate_as_written config_always g hs).
+Proof.
+  induction hs as [|o hs IH]; intros g E; [exact E|]. cbn [grun fold_left].
+  apply IH. now apply gstep_flag_in_step.
+Qed.
+
+(** Once a filtering/config call has returned, the flag the requests read is
+    the flag it set, and stays so until the next config call. *)
+Theorem switch_in_force_after_config g en rest :
+  Forall (fun o => match o with GConfig _ => False | GOp _ => True end) rest ->
+  g_on (grun gate_as_written config_always g (GConfig en :: rest)) = en.
+Proof.
+  intros F. cbn [grun fold_left].
+  set (g1 := gstep gate_as_written config_always g (GConfig en)).
+  assert (E1 : g_on g1 = en /\ g_conf g1 = en) by (split; reflexivity).
+  clearbody g1. revert g1 E1. induction F as [|o l Ho F IH]; intros g1 [A B]; [exact A|].
+  cbn [fold_left]. apply IH. destruct o as [e | o]; [contradiction|].
+  split.
+  - rewrite gstep_flag_in_step by congruence. destruct o; cbn; auto.
+  - destruct o; cbn; auto.
+Qed.
+
+(** The seeded handler (EnableFilters only when enabling): switched off, the
+    requests still read "on". *)
+Theorem publish_only_when_enabling_refuted :
+  exists g, g_on g = g_conf g /\
+    g_on (grun gate_as_written config_only_when_enabling g [GConfig false]) = true /\
+    g_conf (grun gate_as_written config_only_when_enabling g [GConfig false]) = false /\
+    g_on (grun gate_as_written config_always g [GConfig false]) = false.
+Proof. exists (ginit gate_as_written true (mkLState [] [] [])). repeat split. Qed.
+
 (** For the queue the switch does not exist. *)
 Theorem switch_transparent_to_queue hs : forall g,
-  g_q (grun gate_as_written g hs) = hrun (g_q g) (map erase hs).
+  g_q (grun gate_as_written config_always g hs) = hrun (g_q g) (map erase hs).
 Proof.
   induction hs as [|o hs IH]; intros g; [reflexivity|].
-  cbn [grun fold_left map hrun]. fold (grun gate_as_written (gstep gate_as_written g o) hs).
+  cbn [grun fold_left map hrun]. fold (grun gate_as_written config_always (gstep gate_as_written config_always g o) hs).
   rewrite IH, gstep_as_written. reflexivity.
 Qed.
 
@@ -42,7 +83,7 @@ Section Compose.
       by the rules of the LATEST configuration, with the flag as last set as
       the global default. *)
   Theorem engine_rebuilt_regardless_of_global_switch on st hs c up q :
-    let g := grun gate_as_written (ginit gate_as_written on st) hs in
+    let g := grun gate_as_written config_always (ginit gate_as_written on st) hs in
     ask_q sb par ss srt (pquiesce (g_q g)) (cfg_filt c (g_on g)) up q
     = ask sb par ss srt (q_conf (g_q g)) (cfg_filt c (g_on g)) up q.
   Proof.
@@ -54,7 +95,7 @@ Section Compose.
       although the global flag is off) gets C01's main clause for the latest
       rules. *)
   Theorem own_filtering_client_blocked_by_latest_rules on st hs c up q :
-    let g := grun gate_as_written (ginit gate_as_written on st) hs in
+    let g := grun gate_as_written config_always (ginit gate_as_written on st) hs in
     let c' := cfg_filt c (g_on g) in
     blocked_by_spec (match_request (allow_rules (q_conf (g_q g)))) (match_request (block_rules (q_conf (g_q g)))) srt c' q ->
     let o := ask_q sb par ss srt (pquiesce (g_q g)) c' up q in
@@ -73,9 +114,9 @@ End Compose.
 Definition sw_state : lstate := mkLState [] [mkFList 0 true ex_block_rules] [].
 
 Theorem rebuild_only_when_on_refuted :
-  (exists hs, let g := grun gate_only_when_on (ginit gate_only_when_on true sw_state) hs in
+  (exists hs, let g := grun gate_only_when_on config_always (ginit gate_only_when_on true sw_state) hs in
      q_engine (pquiesce (g_q g)) <> ptake (q_conf (g_q g)) /\
-     let g' := grun gate_as_written (ginit gate_as_written true sw_state) hs in
+     let g' := grun gate_as_written config_always (ginit gate_as_written true sw_state) hs in
      q_engine (pquiesce (g_q g')) = ptake (q_conf (g_q g'))) /\
   q_engine (pquiesce (g_q (ginit gate_only_when_on false sw_state))) <> ptake sw_state.
 Proof.
@@ -92,7 +133,7 @@ Definition sw_query : request := mkRequest [66;46;97;46;84;69;83;84;46]%N 1%N ex
 
 Example switch_premises_satisfiable :
   forall m,
-  let g := grun gate_as_written (ginit gate_as_written true (mkLState [] [] []))
+  let g := grun gate_as_written config_always (ginit gate_as_written true (mkLState [] [] []))
              [GConfig false; GOp (HHandle (QRules ex_block_rules)); GOp HLoop] in
   g_on g = false /\ c_filtering (cfg_filt (ex_cfg m) (g_on g)) = false /\
   blocked_by_spec (match_request (allow_rules (q_conf (g_q g)))) (match_request (block_rules (q_conf (g_q g))))
